@@ -18,8 +18,16 @@ EXTENDS TrajData, PairsProps
 
 Down(T, n) == IF n = 0 \/ N(T) <= n THEN T ELSE DocReduce(T, IF n = 1 THEN <<1>> ELSE <<1, N(T)>>)        \* n in {1, 2}: no freedom
 \* dh = 2001 stands for "distance threshold never reached, angle threshold 100 degrees" (only rotations keep a pose)
+\* dh >= 10000 stands for "distance threshold dh - 10000 half-units AND angle threshold 100 degrees" (both criteria active)
+MFDist(dh) == IF dh >= 10000 THEN dh - 10000 ELSE dh
+MFAng(dh) == IF dh = 2001 \/ dh >= 10000 THEN 100 ELSE 1000
 MFilt(T, dh) == IF dh = 0 \/ N(T) < 2 THEN T
-                ELSE DocReduce(T, IdsWhere(N(T), LAMBDA k : k \in MotionKeep(T, dh, IF dh = 2001 THEN 100 ELSE 1000)))
+                ELSE DocReduce(T, IdsWhere(N(T), LAMBDA k : k \in MotionKeep(T, MFDist(dh), MFAng(dh))))
+\* a path on which both criteria of the motion filter fire in turn (thresholds 2.5 units / 100 degrees): pose 2 is kept for its distance
+\* (turned by 90), pose 3 is 180 from pose 1 but only 90 from pose 2 (dropped), pose 4 is kept for its angle to pose 2, pose 5 is 4 units
+\* from pose 2 but only 2 from pose 4 (dropped), pose 6 completes 3 units since pose 4 (kept), pose 7 is dropped:  kept = 1, 2, 4, 6
+Walk == [poses |-> <<Pose(1, <<0, 0, 0>>), Pose(10, <<3, 0, 0>>), Pose(4, <<4, 0, 0>>), Pose(11, <<4, 1, 0>>), Pose(11, <<4, 1, 2>>),
+                     Pose(11, <<4, 2, 2>>), Pose(1, <<4, 2, 3>>)>>, stamps |-> <<0, 1, 2, 3, 4, 5, 6>>, proj |-> FALSE]
 \* time-sorted union of two trajectories with disjoint stamps
 MergeT(A, B) ==
   LET all == [k \in 1..(N(A) + N(B)) |-> IF k <= N(A) THEN <<A.stamps[k], A.poses[k]>> ELSE <<B.stamps[k - N(A)], B.poses[k - N(A)]>>]
